@@ -98,6 +98,9 @@ func parsePosition(size int, words []string) (*tak.Position, error) {
 	switch words[0] {
 	case "startpos":
 		words = words[1:]
+		if size < 3 || size > 8 {
+			return nil, fmt.Errorf("position: no valid board size configured (%d); send teinewgame first", size)
+		}
 		pos = tak.New(tak.Config{Size: size})
 	case "tps":
 		// tps A B C
@@ -208,6 +211,9 @@ func (e *Engine) analyze(ctx context.Context, words []string) error {
 	}
 
 	pv, val, stats := e.mm.Analyze(ctx, e.pos)
+	if len(pv) == 0 {
+		return errors.New("search returned no move (game over or search cancelled)")
+	}
 	var pvs strings.Builder
 	for _, m := range pv {
 		pvs.WriteString(" ")
